@@ -178,7 +178,7 @@ class C08(Prop):
         "fetch_from_msa_modes_agree", "strdealign_spec", "std_gapchars_ok", "get_from_msa_ss_buffer_safe",
         "sq_grow_covers", "sq_growto_covers", "sq_object_grow_keeps_invariant", "sq_object_digitize_textize", "sq_revcomp_markup",
         "sq_object_copy_spec", "std_case_insensitive", "custom_history_case_insensitive", "custom_history_wfdegen",
-        "sq_checksum_detects_substitution", "sq_checksum_steps_injective", "msa_guess_both_forms", "msa_mixed_probe_regenerated", "createdsq_allocation_dsqlen", "sq_object_append_spec", "sq_object_roundtrip",
+        "sq_checksum_detects_substitution", "sq_checksum_steps_injective", "msa_guess_both_forms", "msa_mixed_probe_regenerated", "createdsq_allocation_dsqlen", "sq_object_append_spec", "sq_object_roundtrip", "sq_copy_reused_destination", "sq_copy_reused_probe_regenerated",
     )]
     claimed = True
     technique = ("Lean 4 proof: table theorems closed by `decide` over the whole regenerated tables (vs a hand-written IUPAC statement), "
@@ -209,6 +209,9 @@ class C08(Prop):
                   "history incl. rejected calls; esl_sq_Checksum (exact uint32 model): every step is a bijection of the state and injective in the residue, so any single-residue substitution "
                   "changes the checksum (text and digital); CreateDsq's strlen+2 allocation suffices and dsqlen = number of non-ignored characters; esl_msa_GuessAlphabet in its documented and its "
                   "fall-through form, the form the tree has being regenerated. "
+                  "Round 6b: esl_sq_Copy into ANY consistent reused destination (and esl_sq_Reuse) leaves a consistent object with exactly the source's markup, whatever the destination held and "
+                  "whatever the answer (repaired form; the stale form, where a source without ss left the previous sequence's ss/xr in place, is kept in the model with a proved counter-example, and the "
+                  "form the tree has is regenerated: sqCopyReusedProbe); esl_abc_revcomp / esl_sq_ReverseComplement compared exactly at L = 0, 1, 2 on every symbol and every ordered pair of DNA and RNA. "
                   "The hand model is tied to the tree by an exact differential run (all single bytes, random strings up to 10^4, custom alphabets, ESL_SQ objects at the allocation boundaries).")
     level_note = ("Trusted: Lean kernel + propext/Classical.choice/Quot.sound; table dumper; fidelity of the hand model is checked (not proved) by the "
                   "differential run; score/count averaging is compared bit-exactly (binary64/binary32) and monitored against the exact mean; "
@@ -227,7 +230,7 @@ class C08(Prop):
     assumptions = ["custom alphabets: symbols are non-NUL 7-bit characters (the C constructor does not check; it would write outside inmap[])",
                    "digital sequences handed to Textize/revcomp/dealign contain valid codes (< Kp); other codes are an out-of-bounds read in C = fault in the model",
                    "allocation never fails (eslEMEM paths not modelled)",
-                   "esl_sq_Copy: sequence, n, ss/xr markup, salloc, start/end of the four text/digital combinations into a FRESH destination (names, offsets, a reused destination with old markup are not)",
+                   "esl_sq_Copy: sequence, n, ss/xr markup, salloc, start/end of the four text/digital combinations into a fresh AND into a reused destination (with/without esl_sq_Reuse; names, offsets, C/W/L are not)",
                    "esl_sq_FetchFromMSA / esl_sq_GetFromMSA: one-row alignments, sequence + SS line + the allocation size of sq->ss across two calls on a reused object (no #=GR markup, names, accessions)",
                    "esl_msa_GuessAlphabet: text-mode alignments (a digital alignment answers msa->abc->type: not modelled)",
                    "esl_sq_Digitize/Textize/ReverseComplement/Copy/Grow/GrowTo on an ESL_SQ: sequence, ss line, extra residue markup (xr, all entries non-NULL), salloc, start/end (names, offsets, C/W/L not modelled)",
@@ -331,6 +334,34 @@ class C08(Prop):
             "sqobj init=text via=from hex=%s xr=%s script=c:digital" % (hx(b"ACGT"), hx(b"1234")),
             "sqobj init=text via=add hex=%s xr=%s,%s script=c:digital,t" % (hx(b"ACGTNN"), hx(b"123456"), hx(b"<<..>>")),
             "sqobj init=text via=from hex=%s ss=%s xr=%s script=c:digital" % (hx(b"ACGT"), hx(b"<..>"), hx(b"1234"))]})
+        # round 6b: esl_abc_revcomp / esl_sq_ReverseComplement at L = 0, 1, 2 on EVERY symbol of DNA and RNA (a single residue of a
+        # non-self-complementary symbol is the odd middle element; every ordered pair is the one swap), digital and text mode, both cases
+        for name in ("dna", "rna"):
+            sym = STD[name][0]; Kp = len(sym)
+            ops = ["abc type=%s" % name, "digitize hex=-", "revcomp", "revcomp n=0", "sqobj init=digital via=from hex=- script=r", "sqobj init=text via=from hex=- script=r", "sqrevtext hex=-"]
+            for x in range(Kp):
+                ops += ["digitize hex=%02x" % ord(sym[x]), "revcomp", "revcomp", "revcomp n=0", "revcomp n=1",
+                        "sqobj init=digital via=from hex=%02x ss=3c script=r" % x, "sqobj init=digital via=add hex=%02x script=r,r,t" % x]
+                for c in {sym[x], sym[x].lower()}:
+                    ops += ["sqrevtext hex=%02x" % ord(c), "sqobj init=text via=from hex=%02x xr=31 script=r,d" % ord(c), "sqroundtrip hex=%02x rc=1" % ord(c)]
+            for c in "IiXx._Uu":
+                ops += ["sqrevtext hex=%02x" % ord(c), "sqroundtrip hex=%02x rc=1" % ord(c)]
+            for x in range(Kp):
+                for y in range(Kp):
+                    ops += ["digitize hex=%02x%02x" % (ord(sym[x]), ord(sym[y])), "revcomp"]
+                    if (x + y) % 3 == 0: ops += ["revcomp n=1", "sqobj init=digital via=from hex=%02x%02x script=r,t" % (x, y), "sqrevtext hex=%02x%02x" % (ord(sym[x]), ord(sym[y].lower()))]
+            out.append({"name": "revcomp-L012-%s" % name, "ops": ops, "sticky": 1})
+        # round 6b (stale-markup defect found here, repaired in the tree): esl_sq_Copy into a REUSED destination (with / without esl_sq_Reuse in between; the source losing its markup, changing length and mode)
+        for name in ("dna", "amino"):
+            ops = ["abc type=%s" % name]
+            for (ini, hexs, ssv, xrv) in (("text", hx(b"ACGTACGT"), hx(b"<<....>>"), hx(b"12345678")), ("digital", "0001020300010203", hx(b"<<....>>"), hx(b"12345678"))):
+                for sc in ("p:text,r,p:text", "p:digital,r,p:digital", "p:text,R,r,p:text", "p:digital,R,r,p:digital", "p:digital,a:300,p:digital,r,p:digital",
+                           "p:text,a:300,p:text", "p:digital,t,p:digital,d,p:digital", "p:text,d,p:text,R,p:text", "r,p:digital,p:digital"):
+                    ops.append("sqobj init=%s via=from hex=%s ss=%s xr=%s script=%s" % (ini, hexs, ssv, xrv, sc))
+                    ops.append("sqobj init=%s via=add hex=%s ss=%s script=%s" % (ini, hexs, ssv, sc))
+                    ops.append("sqobj init=%s via=from hex=%s xr=%s script=%s" % (ini, hexs, xrv, sc))
+            ops.append("sqobj init=text via=from hex=%s ss=%s script=p:digital,p:digital" % (hx(b"AC!T"), hx(b"<..>")))
+            out.append({"name": "sqcopy-reused-dst-%s" % name, "ops": ops, "sticky": 1})
         # regression (fixed in fb9db3f): esl_sq_CreateDigitalFrom(..., n = -1 "unknown", ...) set end = W = L = -1
         out.append({"name": "createdigitalfrom-unknown-length", "sticky": 1, "ops": ["abc type=dna",
             "sqobj init=digital via=from len=unknown hex=00010203 script=-", "sqobj init=digital via=from len=unknown hex=- script=t",
@@ -643,7 +674,8 @@ class C08(Prop):
             elif r < 0.62: tok = "g"
             elif r < 0.74: tok = "to:%d" % rng.choice([0, n, n + 1, n + 2, n - 1 if n else 0, 254, 255, 256, 257, 2 * n + 3, rng.randrange(0, 1200)])
             elif r < 0.80: tok = "a:%d" % rng.choice([1, 2, 3, 255, 256, 257, 300, rng.randrange(1, 600)])
-            elif r < 0.90: tok = "c:digital"
+            elif r < 0.84: tok = rng.choice(["p:text", "p:digital", "p:digital", "R"])     # esl_sq_Copy into a persistent, reused destination
+            elif r < 0.92: tok = "c:digital"
             else: tok = "c:text"
             if tok == "c:digital" and not mode_dig and xr and not ss and not COPY_XR_NOSS: tok = "c:text"
             if tok == "d" and valid: mode_dig = True
@@ -969,6 +1001,21 @@ class C08(Prop):
                     return Failure("monitor", "esl_msa_GuessAlphabet answers type %d although the rows vote nucleic" % t)
                 if t in (1, 2) and sum(len(r_) for r_ in rows) <= 10000 and all(any(chr(c & 0xDF) in "EFIJLOPQZ" for c in r_ if 65 <= (c & 0xDF) <= 90 and c < 128) for r_ in rows):
                     return Failure("monitor", "esl_msa_GuessAlphabet calls an alignment nucleic although every row has amino-only letters")
+                continue
+            if name == "sqobj":
+                # every object the script leaves behind (the ESL_SQ itself and the reused Copy destination P) is consistent: markup lines as long as the sequence
+                if l.startswith(("bad-op", "fault")): continue
+                for part in l.split(" || P: "):
+                    r = kv(part[part.index("mode="):]) if "mode=" in part else None
+                    if r is None: return Failure("monitor", "sqobj: unparsable answer %s" % l[:80])
+                    n_ = int(r["n"]); marks = ([] if r["ss"] == "null" else [("ss", r["ss"])]) + ([] if r["xr"] == "-" and r["nxr"] == "0" else [("xr", h_) for h_ in r["xr"].split(",")])
+                    if "!" in part: return Failure("monitor", "sqobj: %s" % part[part.index("!"):][:60])
+                    if len(unhex(r["seq"])) != n_: return Failure("monitor", "sqobj: n=%d but the sequence holds %d residues" % (n_, len(unhex(r["seq"]))))
+                    for nm_, h_ in marks:
+                        if h_.startswith("!") or len(unhex(h_)) != n_:
+                            return Failure("monitor", "an ESL_SQ is left with a %s line of %d characters for n=%d residues (stale or truncated markup; esl_sq_Validate fails)" % (nm_, len(unhex(h_)) if not h_.startswith("!") else -1, n_))
+                    if int(r["nxr"]) != len([m for m in marks if m[0] == "xr"]): return Failure("monitor", "sqobj: nxr=%s but %d markup lines" % (r["nxr"], len(marks)))
+                    if int(r["salloc"]) < n_ + (2 if r["mode"] == "digital" else 1): return Failure("monitor", "sqobj: salloc=%s too small for n=%d" % (r["salloc"], n_))
                 continue
             if name == "sqcadd":
                 src = unhex(d["hex"]); want = bytes(c for c in src if c != 0)
